@@ -227,7 +227,7 @@ def oracle_normal_eq(ctx, case, variant, key, A, y, lam, matrix, Cimpl, alpha, s
     y = np.asarray(y, dtype=float)
     alpha = np.asarray(alpha, dtype=float).flatten()
     m = len(y)
-    tags = {"variant": variant, "matrix": matrix, "lam0": lam == 0, "training": "first" if step == 0 else "repeated"}
+    tags = {"variant": variant, "matrix": matrix, "lam0": lam == 0, "training": step if isinstance(step, str) else ("first" if step == 0 else "repeated")}
     if alpha.shape[0] != A.shape[1] or not np.all(np.isfinite(alpha)):
         ctx.violation("normal-equations", tags, case, {"grid": str(key), "alpha_shape": list(alpha.shape), "columns": int(A.shape[1])})
         return False
@@ -722,18 +722,171 @@ def run_malformed(ctx, drv, case):
     return True
 
 
+def expand_gen(g):
+    """large data sets are described by a generator record (replayable from the case dict alone): m dyadic samples"""
+    import random
+    r = random.Random(g["seed"])
+    m, dim, den = g["m"], g["dim"], g.get("den", 1024)
+    X = [[r.randrange(0, den + 1) / den for _ in range(dim)] for _ in range(m)]
+    y = [max(-1.0, round(8 * (sum(x) - 0.75 * x[0] * x[-1])) / 8) + r.randrange(-4, 5) / 16 for x in X]
+    return X, y
+
+
+def std_grids(combi):
+    return [tuple(int(v) for v in g.levelvector) for g in combi.scheme]
+
+
+def check_object_std(ctx, case, reg, lvs, lam, matrix, training):
+    """normal equations of every component grid of a standard training, with the object's OWN current data and parameters"""
+    ok = True
+    yt = [float(v) for v in np.asarray(reg.training_target_values)]
+    for lv in lvs:
+        alpha = reg.surpluses.get(tuple(lv))
+        if alpha is None:
+            ok = not ctx.violation("surpluses-missing", {"variant": "standard", "training": training}, case, {"grid": str(lv)}) and ok
+            continue
+        reg.grid.numPoints = 2 ** np.asarray(lv, dtype=int) - 1
+        with quiet():
+            A = reg.build_A_matrix(list(lv))
+            C = reg.build_C_matrix(list(lv)) if (matrix == "C" and lam != 0) else None
+        ok = oracle_normal_eq(ctx, case, "uniform", (training, list(lv)), A, yt, lam, matrix, C, alpha, step=training) and ok
+    return ok
+
+
+def sa_grids(reg, combi):
+    """final component grids of a spatially adaptive training: level vector -> coordinate lists (last observation)"""
+    want = set(std_grids(combi))
+    out = {}
+    for stripes, lv, _ in reg.rec:
+        if lv in want and int(np.prod([len(s) - 2 for s in stripes])) <= 60:
+            out[lv] = stripes
+    return out
+
+
+def check_object_sa(ctx, case, reg, grids, lam, matrix, training):
+    ok = True
+    yt = [float(v) for v in np.asarray(reg.training_target_values)]
+    for lv, stripes in grids.items():
+        alpha = reg.surpluses.get(tuple(lv))
+        if alpha is None:
+            ok = not ctx.violation("surpluses-missing", {"variant": "spatially_adaptive", "training": training}, case, {"grid": str(lv)}) and ok
+            continue
+        with quiet():
+            A = reg.build_A_matrix_dimension_wise(stripes, None)
+            C = reg.build_C_matrix_dimension_wise(stripes, None) if (matrix == "C" and lam != 0) else None
+        ok = oracle_normal_eq(ctx, case, "dimension_wise", (training, stripes), A, yt, lam, matrix, C, alpha, step=training) and ok
+    return ok
+
+
+def run_siblings(ctx, drv, case):
+    """two Regression objects alive at once (B a fresh object or a deepcopy of A with changed parameters) that train the
+    same level vectors: A is observed after its own training AND again after B has trained"""
+    import copy
+    sa = case["variant"] == "sa"
+    a, b = case["A"], case["B"]
+    cls = recording_class() if sa else None
+    try:
+        regA = make_regression(case["X"], case["y"], a["lam"], a["matrix"], cls)
+    except Exception as e:
+        ctx.violation("constructor", {"class": "default-arguments", "error": type(e).__name__}, case, {"error": repr(e)[:300]})
+        return False
+
+    def train(reg, st):
+        reg.rec = []
+        with quiet():
+            if sa:
+                return reg.train_spatially_adaptive(st["pct"], st["margin"], st["tol"], st["max_evals"], False, False)
+            return reg.train(st["pct"], st["lmin"], st["lmax"], False)
+
+    def check(reg, grids, st, training):
+        if sa:
+            return check_object_sa(ctx, case, reg, grids, st["lam"], st["matrix"], training)
+        return check_object_std(ctx, case, reg, grids, st["lam"], st["matrix"], training)
+
+    try:
+        combiA = train(regA, a)
+        gridsA = sa_grids(regA, combiA) if sa else std_grids(combiA)
+        ok = check(regA, gridsA, a, "first")
+        snapA = {k: np.array(v, dtype=float).copy() for k, v in regA.surpluses.items()}
+        if case.get("copyB"):
+            regB = copy.deepcopy(regA)
+            apply_step(regB, b, False)
+        else:
+            regB = make_regression(case["XB"], case["yB"], b["lam"], b["matrix"], cls)
+        combiB = train(regB, b)
+        gridsB = sa_grids(regB, combiB) if sa else std_grids(combiB)
+        ok = check(regB, gridsB, b, "first" if not case.get("copyB") else "copy") and ok
+    except Exception as e:
+        ctx.violation("train", {"variant": case["variant"], "training": "sibling", "error": type(e).__name__}, case, {"error": repr(e)[:300]})
+        return False
+    # A again, after its sibling trained
+    ok = check(regA, gridsA, a, "sibling-trained-afterwards") and ok
+    changed = [k for k, v in snapA.items() if k not in regA.surpluses or np.shape(regA.surpluses[k]) != np.shape(v)
+               or not np.array_equal(np.asarray(regA.surpluses[k], dtype=float), v)]
+    ctx.count("siblings_%s_%s" % (case["variant"], "copy" if case.get("copyB") else "fresh"))
+    ctx.count("siblings_shared_level_vectors", len(set(map(tuple, gridsA)) & set(map(tuple, gridsB))))
+    if changed:
+        ctx.count("siblings_surpluses_changed_by_sibling")
+    return ok
+
+
 RUNNERS = {"direct-uniform": run_direct, "direct-nonuniform": run_direct, "train": run_train, "train-sa": run_train_sa,
-           "opt3": run_opt3, "constructor": run_constructor, "malformed": run_malformed}
+           "opt3": run_opt3, "constructor": run_constructor, "malformed": run_malformed, "siblings": run_siblings}
 
 
 def run_case(ctx, drv, case):
-    return RUNNERS[case["kind"]](ctx, drv, case)
+    if "gen" not in case:
+        return RUNNERS[case["kind"]](ctx, drv, case)
+    full = dict(case)
+    full["X"], full["y"] = expand_gen(case["gen"])
+    nv, nc = len(ctx.violations), len(ctx.corr_breaks)
+    try:
+        return RUNNERS[case["kind"]](ctx, drv, full)
+    finally:      # reports carry the compact (generator) form of the case
+        for rec in ctx.violations[nv:] + ctx.corr_breaks[nc:]:
+            if rec.get("case") is full:
+                rec["case"] = case
 
 
 # ------------------------------------------------------------------------------------------- main loop
 def gen_case(ctx, thorough, k):
     r = ctx.rng
     x = r.random()
+    if x < (0.02 if thorough else 0.012):
+        # size stream: more training points than any internal block size is likely to be, not a multiple of a power of two
+        dim = r.choice([1, 1, 2])
+        if r.random() < 0.5:
+            m = r.choice([4097, 4500, 5000, 6143, 8193, 9000]) + r.randint(0, 40)
+            lv = [r.randint(1, 3)] if dim == 1 else [r.randint(1, 2), r.randint(1, 2)]
+            return {"kind": "direct-uniform", "gen": {"m": m, "dim": dim, "seed": r.randrange(10 ** 6)}, "lam": gen_lam(r), "matrix": r.choice(["C", "I"]),
+                    "lv": lv, "use_scaled": r.random() < 0.3}
+        m = r.choice([5200, 6000, 7000, 9000, 11000]) + r.randint(0, 40)
+        return {"kind": "train", "gen": {"m": m, "dim": dim, "seed": r.randrange(10 ** 6)}, "options": [],
+                "steps": [{"lam": gen_lam(r), "matrix": r.choice(["C", "I"]), "pct": r.choice([0.2, 0.1, 0.25]), "lmin": 1,
+                           "lmax": 3 if dim == 1 else 2, "lam_opticom": None}]}
+    if x < 0.055:
+        dim = r.choice([1, 2, 2, 3])
+        sa = r.random() < 0.35
+        X, y = gen_data(r, r.randint(20, 50), dim)
+        XB, yB = gen_data(r, r.randint(20, 50), dim)
+
+        def st():
+            if sa:
+                return {"lam": gen_lam(r), "matrix": r.choice(["C", "I", "I"]), "pct": r.choice([0.25, 0.5]), "margin": r.choice([0.5, 0.75]), "tol": 1e-5,
+                        "max_evals": r.choice([0, 12, 25] if dim < 3 else [0, 30]), "lam_opticom": None}
+            return {"lam": gen_lam(r), "matrix": r.choice(["C", "C", "I"]), "pct": r.choice([0.25, 0.5, 0.1]), "lmin": 1, "lmax": 3 if dim < 3 else 2,
+                    "lam_opticom": None}
+        a, b = st(), st()
+        if not sa:
+            b["lmin"], b["lmax"] = a["lmin"], a["lmax"]
+        case = {"kind": "siblings", "variant": "sa" if sa else "standard", "X": X, "y": y, "A": a, "B": b}
+        if r.random() < 0.35:
+            case["copyB"] = True
+            if b["lam"] == a["lam"] and b["matrix"] == a["matrix"] and b["pct"] == a["pct"]:
+                b["lam"] = gen_lam_other(r, a["lam"])
+        else:
+            case["XB"], case["yB"] = XB, yB
+        return case
     if x < 0.30:
         dim = r.choice([1, 2, 2, 3])
         m = r.choice([8, 16, 16, 32, 32, 20, 48])
@@ -824,6 +977,30 @@ FIXED = [
                {"lam": 0.03125, "matrix": "I", "pct": 0.25, "margin": 0.5, "tol": 1e-5, "max_evals": 20, "lam_opticom": None},
                {"lam": 0.25, "matrix": "C", "pct": 0.5, "margin": 0.75, "tol": 1e-5, "max_evals": 12, "lam_opticom": 0.0}],
      "options": [3, 2], "opticom_mid": [3], "grids": 6},
+    # size stream: more than 4096 training points (not a multiple of a power of two), direct and through train()
+    {"kind": "direct-uniform", "gen": {"m": 4760, "dim": 2, "seed": 11}, "lam": 0.125, "matrix": "I", "lv": [2, 1]},
+    {"kind": "train", "gen": {"m": 7000, "dim": 1, "seed": 12}, "options": [],
+     "steps": [{"lam": 0.0, "matrix": "C", "pct": 0.2, "lmin": 1, "lmax": 3, "lam_opticom": None}]},
+    # sibling objects: B (fresh object / deepcopy of A with another lambda) trains the same level vectors, then A is observed again
+    {"kind": "siblings", "variant": "standard", "X": [[0.125, 0.5], [0.75, 0.25], [0.5, 0.875], [0.25, 0.125], [0.875, 0.75], [0.375, 0.625], [0.625, 0.375], [0.0, 1.0],
+                                                      [1.0, 0.0], [0.3125, 0.8125], [0.6875, 0.0625], [0.9375, 0.4375]],
+     "y": [1.0, 2.0, -0.5, 0.25, 1.5, 0.75, -1.0, 0.5, 1.25, 0.0, 2.0, -0.75],
+     "XB": [[0.25, 0.75], [0.5, 0.5], [0.875, 0.125], [0.125, 0.25], [0.625, 0.875], [0.375, 0.0], [1.0, 0.625], [0.0, 0.375], [0.75, 1.0], [0.5625, 0.3125]],
+     "yB": [0.5, -1.0, 2.0, 1.75, 0.0, 0.25, -0.5, 1.0, 1.5, 0.875],
+     "A": {"lam": 0.125, "matrix": "I", "pct": 0.25, "lmin": 1, "lmax": 3, "lam_opticom": None},
+     "B": {"lam": 0.0, "matrix": "C", "pct": 0.25, "lmin": 1, "lmax": 3, "lam_opticom": None}},
+    {"kind": "siblings", "variant": "standard", "copyB": True,
+     "X": [[0.125], [0.75], [0.5], [0.25], [0.875], [0.375], [0.625], [0.0], [1.0], [0.3125], [0.6875], [0.9375]],
+     "y": [1.0, 2.0, -0.5, 0.25, 1.5, 0.75, -1.0, 0.5, 1.25, 0.0, 2.0, -0.75],
+     "A": {"lam": 0.0078125, "matrix": "C", "pct": 0.25, "lmin": 1, "lmax": 3, "lam_opticom": None},
+     "B": {"lam": 1.0, "matrix": "I", "pct": 0.5, "lmin": 1, "lmax": 3, "lam_opticom": None}},
+    {"kind": "siblings", "variant": "sa", "X": [[0.125, 0.5], [0.75, 0.25], [0.5, 0.875], [0.25, 0.125], [0.875, 0.75], [0.375, 0.625], [0.625, 0.375], [0.0, 1.0],
+                                                [1.0, 0.0], [0.3125, 0.8125], [0.6875, 0.0625], [0.9375, 0.4375]],
+     "y": [1.0, 2.0, -0.5, 0.25, 1.5, 0.75, -1.0, 0.5, 1.25, 0.0, 2.0, -0.75],
+     "XB": [[0.25, 0.75], [0.5, 0.5], [0.875, 0.125], [0.125, 0.25], [0.625, 0.875], [0.375, 0.0], [1.0, 0.625], [0.0, 0.375], [0.75, 1.0], [0.5625, 0.3125]],
+     "yB": [0.5, -1.0, 2.0, 1.75, 0.0, 0.25, -0.5, 1.0, 1.5, 0.875],
+     "A": {"lam": 0.125, "matrix": "I", "pct": 0.25, "margin": 0.5, "tol": 1e-5, "max_evals": 12, "lam_opticom": None},
+     "B": {"lam": 0.5, "matrix": "I", "pct": 0.25, "margin": 0.5, "tol": 1e-5, "max_evals": 12, "lam_opticom": None}},
     # the level vector / the grid of the repo's C-matrix tests
     {"kind": "direct-uniform", "X": [[0.25, 0.25], [0.5, 0.75]], "y": [1.0, 2.0], "lam": 0.125, "matrix": "C", "lv": [1, 2]},
     {"kind": "direct-nonuniform", "X": [[0.25], [0.75]], "y": [1.0, 2.0], "lam": 0.125, "matrix": "C", "stripes": [[0.0, 0.25, 0.5, 0.75, 1.0]]},
@@ -851,6 +1028,8 @@ def nontrivial(case):
         return False
     if k == "opt3":
         return len(case["coefs"]) >= 2
+    if "gen" in case:
+        return case["gen"]["m"] >= 2
     return len(case["X"]) >= 2
 
 
@@ -860,7 +1039,8 @@ def run(ctx):
                 "(dim 1-3, levels 1-4, 8-48 dyadic samples, lambda in {0, 2^-k, 1}, matrix C/I: A, C, left/right side, solve), 28% one non-uniform "
                 "dimension-wise grid (random dyadic bisection), 18% Regression(default args).train + all component grids + Opticom 1-3, 12% "
                 "train_spatially_adaptive (every grid observed by subclassing) + Opticom 1-3, both as HISTORIES of 1-3 trainings on one object with changed "
-                "regularization / matrix / regularization_opticom / split / level range, checked after every training, 5% option-3 arithmetic, 4% constructor, 3% malformed lines; "
+                "regularization / matrix / regularization_opticom / split / level range, checked after every training, 4% SIBLING objects (fresh object or deepcopy trains the same level vectors, the first object is observed again), "
+                "1-2% SIZE stream (4097-11000 samples, dim 1-2, levels <= 3, direct and through train()), 5% option-3 arithmetic, 4% constructor, 3% malformed lines; "
                 "distinct by full case content; non-trivial if at least 2 samples")
     ctx.assumptions = [
         "numpy.linalg.lstsq returns an exact solution of a solvable system (modelled as: alpha solves the system); checked at 1e-8 relative",
